@@ -941,7 +941,12 @@ func (w *world) txLies(t *rapid.T, tr txRef, label string) []lie {
 				other = w.txs[1]
 			}
 		}
-		hasOther = true
+		hasOther = !bytes.Equal(other.Tx, tr.Tx)
+		for _, o := range w.txs {
+			if !hasOther && !bytes.Equal(o.Tx, tr.Tx) {
+				other, hasOther = o, true
+			}
+		}
 	}
 	otherH := w.otherHeight(t, tr.Height, label+".otherh")
 	honestOther := func() *ctypes.ResultTx {
@@ -1102,7 +1107,12 @@ func (r *lieRun) txs() {
 	lib.Class(testF, fmt.Sprintf("tx-target:last=%v,block-txs=%d", tr.Index == len(w.chain.Blocks[tr.Height].Txs)-1, len(w.chain.Blocks[tr.Height].Txs)))
 	c := w.drawVerifier(t, r.liar, "tx.v")
 	hash := types.Tx(tr.Tx).Hash()
-	hon, _ := newLiar(w.core).Tx(bg, hash, true)
+	hon, herr := newLiar(w.core).Tx(bg, hash, true)
+	if herr != nil {
+		r.t.Fatalf("VERIF-INFRA: rpc/core.Tx: %v", herr)
+	}
+	// the same bytes may occur more than once: the lies start from the occurrence the node answers with
+	tr = txRef{Height: hon.Height, Index: int(hon.Index), Tx: tr.Tx}
 	honest := jsonFull(hon)
 	for _, l := range w.txLies(t, tr, "tx") {
 		r.try("Tx", l, honest, func() (interface{}, error) { return c.Tx(bg, hash, true) }, nil, r.judgeTx(tr.Tx))
@@ -1447,6 +1457,38 @@ func (r *lieRun) queries() {
 			}
 			forgeImpossible(p, s, 1, 1)
 			p.Height = w.init - 1
+			return true
+		}),
+		// false absence claims for the existing key, under the application's absence operator
+		on("absence.claimed(leaf list without the key)", func(p *abci.ResponseQuery) bool {
+			m := map[string][]byte{}
+			for _, k := range w.kv.Keys(h, s) {
+				if k != string(p.Key) {
+					v, _ := w.kv.Get(h, s, []byte(k))
+					m[k] = v
+				}
+			}
+			p.Value = nil
+			p.ProofOps.Ops[0] = lib.NewC20AbsenceOp(p.Key, m).ProofOp()
+			return true
+		}),
+		on("absence.claimed(genuine leaf list)", func(p *abci.ResponseQuery) bool {
+			m := map[string][]byte{}
+			for _, k := range w.kv.Keys(h, s) {
+				v, _ := w.kv.Get(h, s, []byte(k))
+				m[k] = v
+			}
+			p.Value = nil
+			p.ProofOps.Ops[0] = lib.NewC20AbsenceOp(p.Key, m).ProofOp()
+			return true
+		}),
+		on("absence.claimed(operator for another key)", func(p *abci.ResponseQuery) bool {
+			o := q(s, []byte("no-such-key-anywhere"), h)
+			if o == nil {
+				return false
+			}
+			p.Value = nil
+			p.ProofOps = o.ProofOps
 			return true
 		}),
 		on("substitute.other-key", func(p *abci.ResponseQuery) bool {
